@@ -156,6 +156,13 @@ class SourceMapping:
     def deserialize(cls, data_list: list[Any]) -> SourceMapping:
         return SourceMapping(data_list[0], data_list[1])
 
+    def __eq__(self, other: object) -> bool:
+        if not isinstance(other, SourceMapping):
+            return False
+        return self.line == other.line and self.column == other.column
+
+    __hash__ = object.__hash__
+
 
 class MacroSourceMapping(SourceMapping):
     relpath_included_file: str | None
